@@ -126,8 +126,33 @@ def cli_cases(ctx):
     return jobs
 
 
+def templated_parallel(ctx, res):
+    """eight stages sharing one task run at the same time, each with ten stage variables whose VALUES are templates over the stage's own
+    `Id`: every stage's command sees the values rendered from its own variables"""
+    import clilib
+    nst, nv = 8, 10
+    cmd = 'echo "%s" > "$PROJ/tp.{{.Id}}"' % "|".join("{{.W%d}}" % i for i in range(nv))
+    stages = [{"task": "t", "name": "s%d" % k, "variables": dict({"Id": "s%d" % k}, **{"W%d" % i: "{{.Id}}-%d-%d" % (k, i) for i in range(nv)})} for k in range(nst)]
+    doc = {"tasks": {"t": {"command": [cmd]}}, "pipelines": {"p": stages}}
+    jobs = [{"id": r, "files": {"cfg.json": clilib.jcfg(doc)}, "argv": ["-c", "cfg.json", "--raw", "run", "pipeline", "p"], "keep": ["tp.s%d" % k for k in range(nst)], "timeout": 30}
+            for r in range(12 if ctx.tier != "thorough" else 40)]
+    out = clilib.run_cli(ctx.workdir + "/tp8", jobs, timeout=30, workers=4)
+    for j in jobs:
+        r = out[j["id"]]
+        res.evaluations += 1
+        res.count("templated-parallel")
+        res.nontrivial_keys.add("templated-parallel")
+        want = {"tp.s%d" % k: "|".join("s%d-%d-%d" % (k, k, i) for i in range(nv)) for k in range(nst)}
+        got = {fn: (txt or "").strip() for fn, txt in r["files"].items()}
+        if r["timeout"] or clilib.crashed(r) or r["rc"] != 0 or got != want:
+            res.violations.append({"class": None, "what": "parallel stages sharing a task, with stage variables whose values are templates: a stage's command saw values rendered from ANOTHER stage's variables (or the run failed)",
+                                   "case": {"kind": "cli", "shape": "templated-parallel", "config": doc}, "observed": {"rc": r["rc"], "differs": {k: v for k, v in got.items() if want.get(k) != v}, "err": (r.get("err") or "")[-300:]}})
+            break
+
+
 def run_cli_part(ctx, res):
     import clilib
+    templated_parallel(ctx, res)
     jobs = cli_cases(ctx)
     out = clilib.run_cli(ctx.workdir + "/cli8", jobs, timeout=30)
     items, index = [], {}
